@@ -230,7 +230,11 @@ class _Stack:
 
     for i in range(0, 2 * n, 2):
       v_elt, k_elt = args[i], args[i + 1]
-      ret.add(k_elt, v_elt)
+      try:
+        ret.add(k_elt, v_elt)
+      except TypeError as e:
+        # We have some malformed code, e.g. {[1]: 2}
+        raise ConstantError(f'TypeError: {e.args[0]}', op) from e
       k_elt.op.folded = op
       v_elt.op.folded = op
     return ret.build()
@@ -385,8 +389,9 @@ class _FoldConstants(pyc.CodeVisitor):
           if elements:
             map1, map2 = elements.elements
             if map2.typ[0] != 'map':
-              # We have some malformed code, e.g. {**42}
-              name = map2.typ[1].__name__
+              # We have some malformed code, e.g. {**42} or {**[1]}
+              tag2, et2 = map2.typ
+              name = et2.__name__ if tag2 == 'prim' else tag2
               msg = f'Value after ** must be an mapping, not {name}'
               raise ConstantError(msg, op)
             tag1, (kt1, vt1) = map1.typ
